@@ -5,15 +5,35 @@ from verif import *
 import indfam, numfam
 
 
+RANGED = ["Aroon", "BollingerBands", "ChaikinMoneyFlow", "ChandeMomentumOscillator", "DonchianChannel", "Envelopes", "KeltnerChannel",
+          "MoneyFlowIndex", "ParabolicSAR", "PriceChannelStrategy", "RelativeStrengthIndex", "SMIErgodicIndicator", "StochasticOscillator",
+          "TrueStrengthIndex"]
+
+
 def run(chk):
     quick = chk.tier == "quick"
     yv = build_harness()
     # regime-shaped candle streams (volatile -> exactly flat -> volatile, zero-volume bars) on every indicator / config
     # indicators with an open known finding get their own traces, so that the finding does not cut short the others' validation
     special = sorted(set(k["key"].split(":")[0] for k in chk.known if k.get("status", "open") == "open" and k["key"].endswith(":range")))
-    files = indfam.record(chk, yv, "c12", 10 if quick else 40, 36, 140 if quick else 500, exclude=tuple(special))
+    files = indfam.record(chk, yv, "c12", 4 if quick else 16, 36, 140 if quick else 500, exclude=tuple(special))
+    # the indicators with a documented range / ordering get many more programs each, on streams with one-sided stretches
+    # (closes at the high / low: clv = +-1), untraded stretches (runs of zero-volume bars) and small windows
+    for name in RANGED:
+        if name not in special:
+            files += indfam.record(chk, yv, "c12", 1 if quick else 4, 8, 140 if quick else 500, only=name, range_regimes=True)
     for name in special:
         files += indfam.record(chk, yv, "c12", 2 if quick else 6, 6, 200 if quick else 600, only=name, force_drop=True)
+        # the recorded witness of the finding (its configuration on a scripted stream: volatile, scale drop, exactly flat, volatile)
+        for kf in chk.known:
+            if kf["key"] == name + ":range" and kf.get("witness_sets"):
+                wf = os.path.join(workdir("c12"), "witness_%s.ndjson" % name)
+                os.environ["YV_WITNESS_SETS"] = kf["witness_sets"]
+                try:
+                    n = indfam.harness_lines(run_harness(yv, ["ind-record", 1, 1, 330, 0, wf, name]))[0]["events"]
+                finally:
+                    os.environ.pop("YV_WITNESS_SETS", None)
+                files.append((wf, n))
     indfam.validate(chk, files, "ranges", "range")
     # dispersion measures are never negative up to the rounding allowance: implied by the two-sided acceptance around a non-negative exact value;
     # Trace_Candle's acceptance already bounds them two-sidedly around a non-negative exact value; here the sign is asserted
